@@ -322,6 +322,12 @@ def parse_outputs(text):
     return res
 
 
+def _limit_memory():
+    import resource
+    lim = 6 * 1024 ** 3
+    resource.setrlimit(resource.RLIMIT_AS, (lim, lim))
+
+
 def run_impl(cases, workdir, timeout=20, jobs=8):
     """Runs the cases against the real code. Restarts after a hang / abort. Returns {id: [lines]}."""
     os.makedirs(workdir, exist_ok=True)
@@ -347,7 +353,8 @@ def run_impl(cases, workdir, timeout=20, jobs=8):
             cmd = [HARNESS_BIN, "run", path, os.path.join(workdir, "out"), "--timeout", str(timeout)]
             if start_from:
                 cmd += ["--from", start_from]
-            p = subprocess.run(cmd, stdout=subprocess.PIPE, stderr=subprocess.DEVNULL, text=True, errors="replace")
+            p = subprocess.run(cmd, stdout=subprocess.PIPE, stderr=subprocess.DEVNULL, text=True, errors="replace",
+                               preexec_fn=_limit_memory)
             got = parse_outputs(p.stdout)
             out_all.update(got)
             if p.returncode == 0:
@@ -646,7 +653,14 @@ def run_differential(prop, tier, seed, replay=None):
     rep.coverage["model_disagreements"] = len(disagreeing)
     known = [f for f in load_known().get("findings", []) if f.get("property") == pid]
     reported = {}
-    for c, orc in failing:
+    # one representative per kind of failure (digits abstracted), smallest case first
+    reps, seen_keys = [], set()
+    for c, orc in sorted(failing, key=lambda x: len(x[0].lines)):
+        k0 = c.kind + ":" + re.sub(r"[0-9a-f]{6,}|\d+", "N", orc)[:60]
+        if k0 not in seen_keys:
+            seen_keys.add(k0)
+            reps.append((c, orc))
+    for c, orc in reps[:3 * prop.max_reported]:
         if len(reported) >= prop.max_reported:
             break
 
